@@ -1,5 +1,6 @@
 import CM.Proofs.CoverageGeneric
 import CM.Proofs.CoverageStream
+import CM.Proofs.RefDefCoverMain
 /-
 C03 — no source text is lost or duplicated by the tree.
 
@@ -47,5 +48,24 @@ theorem drain_cover (x : PExt) (inp : Bytes) (fuel : Nat)
     (h : isCoverFail (drain (blocksLPk x) fuel (memParser inp) []).2.1 = false) :
     ∀ r ∈ (drain (blocksLP x) fuel (memParser inp) []).1, RootK (padNulls inp 0) r :=
   Cov.drain_cover x inp fuel h
+
+/-! ### Unconditional (session 4, second wave: 23 proof files `RefDefCover*`) -/
+
+/-- The `RefDefCoverOK` check never fails: what `onCloseParagraph` splits a paragraph into covers every letter, digit and
+    non-ASCII byte its text runs covered (reader-level proof: the pieces between label, destination and title are
+    punctuation, white space or container prefixes; `collectTextNodes` re-tiles the inner text). -/
+theorem refDefCoverOK (x : PExt) (inp : Bytes) (fuel : Nat) :
+    isCoverFail (drain (blocksLPk x) fuel (memParser inp) []).2.1 = false :=
+  RDC.refDefCoverOK x inp fuel
+
+/-- **Block phase of C03 with no hypothesis** but NUL-freeness: `Spec.coverage` holds for every root block of every input. -/
+theorem drain_coverage_uncond (x : PExt) (inp : Bytes) (fuel : Nat) (hz : ∀ c ∈ inp, c ≠ 0) :
+    ∀ r ∈ (drain (blocksLP x) fuel (memParser inp) []).1, coverage r.source (pbToTree r.block) = true :=
+  RDC.drain_coverage_uncond x inp fuel hz
+
+/-- Every input (NUL bytes counted as bytes to cover, on the padded buffer). -/
+theorem drain_cover_uncond (x : PExt) (inp : Bytes) (fuel : Nat) :
+    ∀ r ∈ (drain (blocksLP x) fuel (memParser inp) []).1, RootK (padNulls inp 0) r :=
+  RDC.drain_cover_uncond x inp fuel
 
 end CM.Props.C03
